@@ -67,7 +67,15 @@ NEGATIVE_CONTROLS = [
     "nc6_equivalent_escape_and_prepare: Utility::EscapeShellArg rewritten over std::string with reserve/append/continue; "
     "Process::PrepareCommand with emplace_back",
     "(run by the coordinator) std::stable_sort instead of std::sort in ResolveArguments",
+    "nc7_set_if_true_compared_on_strings_only: ResolveArguments compares the resolved set_if with \"true\" only when it is a String (a Boolean "
+    "true then goes through Convert::ToLong = 1: same truth value) — silent with Boolean/Number custom variables generated",
+    "nc8_sigterm_to_process_group: at the timeout SIGTERM goes to the plugin's process group instead of the plugin alone (children die "
+    "earlier; the property — killed, UNKNOWN — holds): silent incl. the plugin with a forked child and the forking shell",
 ]
+# Breaking sibling changes written while extending the check (corpus/C09/sibling_changes/*.diff; each caught at quick tier, seed 1):
+#   m2_wtermsig          WIFSIGNALED branch of Process::DoEvents reports WTERMSIG as exit status (SIGHUP = WARNING)   -> spec:signal_unknown
+#   m3_env_escaped       `env` entries resolved with the shell-escape function (values arrive quoted)                  -> spec:env_verbatim
+#   m5_num_value_skipped `value = 0` / `value = false` treated like an absent value (SkipValue)                         -> spec:argv_layout
 
 
 class C09(StdCheck):
@@ -75,10 +83,11 @@ class C09(StdCheck):
     eval_key = "steps"
     max_shrunk = 2
     required_theorems = [
-        "macro_terminates", "depth_bounded", "depth_bounded_array", "fuel_monotone", "dollar_escape", "verbatim_insertion", "lone_macro_verbatim",
+        "macro_terminates", "depth_bounded", "depth_bounded_array", "cycle_bounded", "fuel_monotone", "dollar_escape", "verbatim_insertion", "lone_macro_verbatim",
         "argv_shape_independent_of_values", "each_value_one_element", "optional_missing_drops_only_its_argument",
-        "required_missing_fails", "cached_path_equals_direct_partial", "cached_path_nested_missing_counterexample",
-        "model_block_meets_layout_spec", "shell_quote_roundtrip", "shell_quote_one_word", "shell_quote_needs_unquoted_counterexample",
+        "required_missing_fails", "skipped_argument_drops_only_itself", "set_if_guards_argument", "cached_path_equals_direct_partial", "cached_path_nested_missing_counterexample",
+        "model_block_meets_layout_spec", "resolveArguments_meets_layout", "arguments_never_shell", "env_lone_macro_verbatim",
+        "killed_plugin_unknown", "own_exit_code_kept", "shell_quote_roundtrip", "shell_quote_one_word", "shell_quote_needs_unquoted_counterexample",
         "exit_mapping", "output_split", "model_result_meets_spec", "model_string_command_meets_spec",
     ]
     technique = ("Lean 4 proof (round-trip law for the shell quoting over a model of sh word splitting, structural theorems about the "
@@ -86,8 +95,15 @@ class C09(StdCheck):
                  "of the real MacroProcessor::ResolveMacros/ResolveArguments on real Host/Service/CheckCommand objects, of "
                  "PluginCheckTask::ProcessFinishedHandler, and end to end through PluginCheckTask::ScriptFunc -> Process -> execvpe or "
                  "/bin/sh with a recording plugin")
-    level_text = ("Machine-checked theorems (Lean 4 kernel): macro resolution is total and a nesting deeper than the limit is an error; `$$` yields "
-                  "`$`; the value of a non-recursive macro is inserted untouched whatever bytes it contains and is not rescanned; the number and "
+    level_text = ("Machine-checked theorems (Lean 4 kernel): macro resolution is total and a nesting deeper than the limit is an error; no string "
+                  "that mentions a custom variable on a reference cycle — of any length, through scalar values, array values or both, with "
+                  "any surrounding text — resolves to a value (`cycle_bounded`); WHOLE TRACE for commands with an arguments dictionary: for every "
+                  "lookup, command and dictionary the argument vector the model yields satisfies the trace clause `argv_layout` exactly as the "
+                  "driver evaluates it (`resolveArguments_meets_layout`: the model's stable sort is the concatenation of the specification's "
+                  "classes of equal `order`, each block is the specification's block, the result is never a shell line); a plugin that does not "
+                  "end by its own exit (timeout expired whatever it does on SIGTERM, terminated by any signal, waitpid failure) is reported with "
+                  "128 = UNKNOWN and only then (`killed_plugin_unknown`, `own_exit_code_kept`); an `env` entry that is one macro carries exactly "
+                  "its value; `$$` yields `$`; the value of a non-recursive macro is inserted untouched whatever bytes it contains and is not rescanned; the number and "
                   "positions of the elements an argument contributes depend on its value only through its shape (scalar / array length) and every "
                   "value occupies exactly one element; a missing optional macro drops only its argument, a missing required one fails the "
                   "resolution; for EVERY byte string v, Utility::EscapeShellArg(v) read by the sh lexer model in unquoted state appends exactly v "
@@ -100,30 +116,39 @@ class C09(StdCheck):
                   "spawns only: /bin/sh word splitting (model restricted to unquoted text, backslash escapes, single and double quotes). Not compared "
                   "(not part of the property): which exception a failing resolution throws and every message/marker wording (the marker "
                   "appended for exit codes above 3 is an oracle input read from the implementation). Not "
-                  "modelled: numbers/booleans/dictionaries/functions as macro values, nested arrays, the default `icinga`/`env` resolvers, set_if "
-                  "values beyond true/false/integers, std::sort instability beyond 16 equal-order arguments (compared modulo permutation), process "
-                  "creation and the timeout kill (exercised only).")
+                  "modelled: fractional numbers/dictionaries/functions as macro values, typed elements inside arrays, nested arrays, the default "
+                  "`icinga`/`env` resolvers, runtime macros, set_if values beyond true/false/integers of up to 9 digits, std::sort instability beyond "
+                  "16 equal-order arguments (compared modulo permutation), PluginNotificationTask/PluginEventTask and the cluster ExecuteCommand "
+                  "callers of ResolveArguments. Modelled as a function of what waitpid reported (not of time): the exit status Process::DoEvents "
+                  "derives for a timed-out or signalled plugin; process creation, pipes and the delivery of SIGTERM/SIGKILL are exercised only "
+                  "(observed: state, and that the plugin — or the child it forked, or the grandchild of a forking /bin/sh — is gone).")
     trusted_base = [
         "modelled, not verified: MacroProcessor::ResolveMacro/InternalResolveMacros/ResolveMacros/ResolveArguments/AddArgumentHelper/"
         "EscapeMacroShellArg, Utility::EscapeShellArg/Join, Process::PrepareCommand, PluginUtility::ExitStatusToState/ParseCheckOutput/"
-        "SplitPerfdata, PluginCheckTask::ProcessFinishedHandler",
+        "SplitPerfdata, PluginCheckTask::ProcessFinishedHandler, the `env` loop of PluginUtility::ExecuteCommand, the exit-status derivation of "
+        "Process::DoEvents (WIFEXITED / m_SentSigterm / WIFSIGNALED), Value::operator String for Boolean and integer-valued Number",
         "parameter: POSIX sh word splitting (`shWords`: blanks, backslash escapes, '…', \"…\" without live characters); every generated sh line is "
         "executed by the real /bin/sh and its argv diffed against the model",
-        "exercised only, no theorem: spawn helper, execvpe, pipes, timeout SIGTERM/SIGKILL (one or more real timeouts per run)",
+        "exercised only, no theorem: spawn helper, execvpe, pipes, delivery of SIGTERM at the timeout and of SIGKILL to the process group at "
+        "1.1 x timeout (nine or more real timeouts per run, incl. a plugin with a forked child and a forking shell; real deaths by "
+        "SIGHUP/SIGINT/SIGQUIT/SIGSEGV/…)",
     ]
     assumptions = [
-        "macro values are Empty, strings or arrays of strings; valid UTF-8 without NUL (the spawn helper transports argv as JSON)",
+        "macro values are Empty, strings, Booleans, integer-valued Numbers (|n| < 10^9 where used as set_if) or arrays of strings; valid UTF-8 "
+        "without NUL (the spawn helper transports argv and environment as JSON)",
         "/bin/sh is a POSIX shell (dash on the build host); the first word of a command line contains no `=`",
         "the `arguments` dictionary iterates in bytewise key order (std::map<String, …>); at most 16 arguments (libstdc++ insertion sort is stable)",
     ]
     rule = ("exhaustive: ExitStatusToState on -3..300; custom-variable chains of depth 10..18 from entry levels 0..3 (recursion limit), self and "
             "mutual recursion, cycles in which every hop is an array; real timeouts (1 s) with plugins that die on SIGTERM, trap it and exit "
-            "0/1/2/3, or ignore it. Every operation runs in a forked child: a crash or hang is a per-operation `no_crash` failure. seeded random: cases of custom variables on service/host/command (strings with `$$`, nested macro references, "
-            "malformed `$`, arrays, Empty, a variable named \"\"), attributes (address, display_name, notes, …: arbitrary bytes incl. lone `$`), "
+            "0/1/2/3, ignore it, or fork a child that holds the output pipe (the child must be gone), and a string command line whose /bin/sh forks; "
+            "plugins that die by signals 1, 2, 3 and a seed-dependent third of 6, 9, 10, 11, 13, 15 (array and string command lines). Every operation runs in a forked child: a crash or hang is a per-operation `no_crash` failure. seeded random: cases of custom variables on service/host/command (strings with `$$`, nested macro references, "
+            "malformed `$`, arrays, Empty, Booleans, integers, a variable named \"\"), attributes (address, display_name, notes, …: arbitrary bytes incl. lone `$`), "
             "each followed by ResolveMacros calls (levels 0..15, with/without shell escaping) and ResolveArguments calls (array / string command "
-            "lines, dictionaries of 0..5 arguments with key, value, set_if, required, skip_key, repeat_key, order ties, separator incl. \"\"); "
+            "lines, dictionaries of 0..5 arguments with key, value, set_if, required, skip_key, repeat_key, order ties, separator incl. \"\", Boolean/Number values and set_if); "
             "plugin outputs through ProcessFinishedHandler; sh lines through the real /bin/sh; end-to-end checks through "
-            "PluginCheckTask::ScriptFunc with the recording plugin (array and string command lines, exit statuses 0..255); string command "
+            "PluginCheckTask::ScriptFunc with the recording plugin (array and string command lines, exit statuses 0..255, 0..2 `env` entries of the "
+            "command — macro strings — whose values the plugin reads back from its environment: clause env_verbatim, direct and cached path); string command "
             "lines with a macro inside double quotes (Q-C09) for a list of hostile values; real timeouts. evaluations = operations compared; "
             "a case is non-trivial when it resolved a macro, produced an error, split output or ran a process (distinct by hash of the "
             "operation line, counted by the Lean driver)")
